@@ -88,6 +88,77 @@ CLAIMED["C19"] = dict(
          "inputs is checked for length-2 arrays / a (2,2) batch only; 3-variable order-4 gradient uses degree 2 per variable.",
     design="3 (C19)")
 
+CLAIMED["C01"] = dict(
+    level="proof",
+    text=("EOM.solveWall with wallPressure under contract (a function of its arguments that writes the two convergence flags), every path "
+          "(263): brentq gets [vMin', vMax] with pressure(vMin')<=0<=pressure(vMax), xtol==errTol, method brentq, and inside the bracket the "
+          "function is the wall pressure; success with a velocity => converged root inside the window, flags of the LAST evaluation true, "
+          "temperatures in range, wall parameters off their bounds, DETONATION iff velocity>vJ, every reported datum comes from the last "
+          "evaluation and that evaluation was made AT the returned velocity; RUNAWAY => pressure at the top negative and no velocity; "
+          "unsuccessful => ERROR; loop contract for the vMin doubling loop; no solver state of an earlier call is read before being rewritten "
+          "(stale-state obligations on pressAbsErrTol and both flags). Deflagration entry point: window [vMin, min(vJ, fastestDeflag)], initial "
+          "wall 5/Tn. Manager: setupWallSolver builds a fresh grid/Boltzmann solver/EOM per call, writes no manager attribute."),
+    note=COMMON_NOTE + " Assumed contract of EOM.wallPressure (its inner pressure iteration and Nelder-Mead are not verified): deterministic "
+         "function of its arguments and pressAbsErrTol; frame = the two flags. Brackets narrower than the hard-wired 1e-10 are excluded. "
+         "Not decided: findWallVelocityDetonation (adaptive stepping), convergence of the pressure iteration, includeOffEq=True error estimates.",
+    design="3 (C01)")
+CLAIMED["C04"] = dict(
+    level="proof",
+    text=("plasmaVelocity returns v with w g^2 v = s1, |v|<1; temperatureProfileEqLHS = K - V + w g^2 v^2 - s2; every (T,v) returned by "
+          "findPlasmaProfilePoint after the root find satisfies the T33 balance and v=plasmaVelocity(T), and (lemma) then T30 and T33 including the "
+          "out-of-equilibrium parts equal c1, c2; loop contract for the bracket expansion; boundary lemma: (T+,-v+) and (T-,-v-) solve the point "
+          "equations far from the wall (with C02's junction conditions). Known finding F6: the no-root branch returns the minimiser with T>0."),
+    note=COMMON_NOTE + " Assumed: EffectivePotential.evaluate/derivT are V and dV/dT; envelope theorem for the boundary lemma. Bounded: "
+         "findPlasmaProfile's flag <=> all T>0 is checked for 3 grid points (for-loop unrolled).",
+    design="3 (C04)")
+CLAIMED["C09"] = dict(
+    level="proof",
+    text=("wallProfile: dPhidz is the exact z-derivative of fields for every field (array and scalar branch), fields is the tanh ansatz; "
+          "_intermediatePressureResults: the integrand is sum_f (dV/dphi_f + dVout_f) dphi_f/dz with the profile of the FINAL wall parameters, "
+          "dVout = 1/2 sum dof dm^2/dphi Delta00, integrated with weight -dz/dchi, and the returned pressure is that integral; chain-rule lemma: "
+          "at constant T and without Delta00 the integrand is d/dz V(phi(z))."),
+    note=COMMON_NOTE + " Not claimed: numerical equality with V(low)-V(high) (quadrature and finite-difference accuracy). Nelder-Mead by stub "
+         "(returns arbitrary parameters). Checked on 2 fields x 2 grid points x 2 particles with elementwise expressions.",
+    design="3 (C09)")
+CLAIMED["C12"] = dict(
+    level="proof",
+    text=("buildLinearEquations interpreted on M=3,N=3, two particles, real Gauss-Lobatto nodes, symbolic profiles/masses/coordinates/collision "
+          "tensor, in all four basis combinations and the finite-difference mode: the source equals dfEq/T dchi/dxi [p_w p_pl g^2 dv + p_w E_pl dT/T "
+          "+ dm^2 u_w.ubar/2] with EACH profile differentiated by the mode's own operator (F1 fixed); Liouville and collision terms entry by entry "
+          "(T^2 on the row index, intertwiners, multiplier); operator = Liouville + collision, row-major flattening; homogeneous background => "
+          "source 0 (spectral); _dfeq = d _feq/dx for both statistics; solveBoltzmannEquations solves one assembled system and reshapes row-major; "
+          "setBackground boosts a deep copy."),
+    note=COMMON_NOTE + " Bounded in grid size (M=3, N=3; all entries symbolic). findiff's matrix is an arbitrary symbolic matrix. Not decided: "
+         "basis independence of the solved deviation for all sizes, FD->spectral convergence, non-singularity of the operator.",
+    design="3 (C12)")
+CLAIMED["C13"] = dict(
+    level="proof",
+    text=("deltaToTmunu equals the boosted direct integral of p^mu p^nu delta f (T30, T33) for every velocity |v|<1 and every moment set; "
+          "getDeltas wraps the deviation as (Array,z,pz,pp) polynomial without endpoints, brings ALL polynomial axes to the cardinal basis before "
+          "applying pointwise weights, integrates over axes (2,3) with W00=(dpz/drz)(dpp/drp) pp/(4 pi^2 E), W02=pz^2 W00, W20=E^2 W00, W11=E pz W00, "
+          "E^2=m^2(z)+pz^2+pp^2, and returns the four moments in order."),
+    note=COMMON_NOTE + " Linearity and quadrature exactness are delegated to the contract of Polynomial.integrate/changeBasis (C16). Checked on "
+         "2 particles and a 2x2x2 symbolic grid; the expressions are elementwise.",
+    design="3 (C13)")
+CLAIMED["C14"] = dict(
+    level="proof",
+    text=("With a fully symbolic collision tensor, for 1..3 particles (the range of the property): newFromDirectory puts the data of file (i,j) at "
+          "[i,:,:,j,:,:]; a missing file (each one), an oversized target grid and a size mismatch without interpolation raise CollisionLoadError; "
+          "loadCollisions keeps the previously installed array on every exceptional path; changeBasis leaves the operator's action on every "
+          "distribution unchanged in both directions (inverse-transpose rule); interpolateCollisionArray gives, per pair (a,b), the source operator "
+          "evaluated at the target grid points truncated to low orders, for 1 and 2 particles (F2 fixed), and does not modify its input."),
+    note=COMMON_NOTE + " h5py.File by assumed contract. Grid sizes: stored N=5 -> target N=3 for interpolation, N=3 for loading and basis change; "
+         "3-particle interpolation not run (cost).",
+    design="3 (C14)")
+CLAIMED["C16"] = dict(
+    level="other",
+    text=("BOUNDED stand-in, not a proof: the real Polynomial/Grid code interpreted with symbolic coefficients on the exact Gauss-Lobatto nodes of "
+          "grids (M,N) in {(3,3),(4,5)}: evaluate, cardinal<->Chebyshev round trip, derivative exact at all grid points incl. boundaries from "
+          "both bases, GCL integration weights incl. half weights, in z/pz/pp with and without endpoints; rank-2 (Array,pz) independence."),
+    note="Bound: grid sizes listed; within a size every polynomial of the space is covered (symbolic coefficients). eval_chebyt/u and "
+         "linalg.inv are sympy closed forms. The all-sizes index agreement planned in DESIGN was not built.",
+    design="3 (C16)")
+
 NOT_APPLICABLE = {
     "C11": "RK45 phase tracing interleaved with BFGS re-minimisation on an arbitrary potential: the content is the numerical behaviour of external routines; no contract within reach expresses or decides it (DESIGN section 4)",
     "C20": "values of improper integrals of transcendental integrands, 2x10000 table rows and quad: not decidable by SMT; checking rows against the integral is numerical testing, a different family (DESIGN section 4)",
